@@ -407,6 +407,9 @@ def run(facts, rep, tier):
              "(Graph::with_front_matter on every Update before to_document_change); Updates built elsewhere are rendered by Graph::to_markdown / export_key.")
     from . import frontmatter
     frontmatter.rule_updates_carry_front_matter(facts, rep, "C10-R9")
+    rep.rule("C10-R10", "= C09-R11 for the three conversions: every scope selector whose None makes changes give up also gates the offer.")
+    from . import offers
+    offers.rule_offer_implies_changes(facts, rep, "C10-R10", only=("ListChangeType", "ListToSections", "SectionToList"))
 
 class _Conv:
     """Forwards only the instances located in the list/section conversion actions."""
